@@ -74,6 +74,7 @@ func checkC20(r *Run) {
 	// the names cEnt.Walk sends are NormalizePath(names): the layer is faithful only if that normalisation is the
 	// specified one (rule shared with C16)
 	c16Normalize(r, p.Fn("p9p:NormalizePath"))
+	c16NormalizeFresh(r, p.Fn("p9p:NormalizePath"), "walk")
 	// (1) fid arguments
 	nCalls := 0
 	for _, fn := range p.FuncsOfPkg("p9p") {
@@ -156,10 +157,17 @@ func checkC20(r *Run) {
 				}
 			}
 		})
+		okRet = true
+		nRetNF := 0
 		for _, ret := range returnsOf(nf) {
-			if stored != nil && fa.Sym(ret.Results[0]).K == fa.Sym(stored).K {
-				okRet = true
+			nRetNF++
+			// every way out hands back the value just stored by the increment (no second source of fids: free lists, caches)
+			if !(stored != nil && fa.Sym(ret.Results[0]).K == fa.Sym(stored).K) {
+				okRet = false
 			}
+		}
+		if nRetNF == 0 {
+			okRet = false
 		}
 		r.Check(okInc && okRet, "allocator", "newFid: increments nextfid and returns the new value", nf.Pos(), "the allocator can hand out the same fid twice")
 	}
